@@ -80,6 +80,10 @@ def gen_base(rng, tier, index):
         # a request/response stream: the next item exists only after the previous result was received
         call.update(chunk=1, form="list", request_response=True)
         call.pop("slow", None)
+    if index % 8 == 3 and n:
+        # "everything in one chunk" spelled as a huge chunk size (sys.maxsize, 2**100, infinity)
+        call.update(chunk=n + 5, chunk_special=["maxsize", "huge", "inf"][(index // 8) % 3])
+        call.pop("durations", None)
     if index % 8 == 6:
         case["worker_opts"] = {"functor_forks_a_child": True}      # the functor uses a helper process of its own
     return case
